@@ -42,7 +42,7 @@ pub struct Sched {
     n: usize,
 }
 
-#[derive(Clone, Debug, Default)]
+#[derive(Clone, Debug, Default, serde::Serialize, serde::Deserialize)]
 pub struct SchedReport {
     pub steps: u64,
     pub switches: Vec<(u64, usize)>,
